@@ -153,8 +153,19 @@ def scen_c01(wd, rnd, n):
         idx = idx_label(c["idx"], rnd)
         name = f"m{k}"
         sc += register(c, rnd, s, I(limv), idx)
+        again = (k % 3 == 0)
+        o1, o2 = [p for p in (5, 6, 9) if p != idx][:2]
+        if again:
+            sc += [{"c": "setraw", "i": o1, "v": I(21)}, {"c": "setraw", "i": o2, "v": I(22)}]
         sc.append(prove_op(name, c["entry"], s, idx, I(limv), I(midv), e, sig_label(c["sig"], rnd), cls=c))
         sc += verify_all(name)
+        if again:
+            # the tree moves on (two other members are removed in one batch, nothing else happens in between) and the
+            # same member proves again
+            sc += [{"c": "regbatch", "i": 0, "ids": [], "rem": sorted([o1, o2])}]
+            sc.append(prove_op(name + "b", c["entry"] if c["entry"] != "vector" else "tree", s, idx, I(limv), I(midv), e,
+                               sig_label(c["sig"], rnd), cls=dict(c, again=True)))
+            sc += verify_all(name + "b")
     return sc, len(cs), uncovered
 
 
@@ -194,7 +205,8 @@ def tamper_ops(name, t, siglen):
     elif tree == "changed-restored":
         pre = [{"c": "setraw", "i": 78, "v": I(5)}, {"c": "del", "i": 78}]
     if kind == "roots":
-        base["roots"] = {"empty": [], "cur": ["cur"], "other": ["rnd"], "other+cur": ["rnd", "cur"], "stale": ["msg"]}[roots]
+        base["roots"] = {"empty": [], "cur": ["cur"], "other": ["rnd"], "other+cur": ["rnd", "cur"], "stale": ["msg"],
+                         "zero": ["zero"], "zeros": ["zero"] * 5, "zero+cur": ["zero", "cur"]}[roots]
     return pre + [base] + post
 
 
@@ -341,6 +353,15 @@ def scen_c12(wd, rnd, quick):
         sc += [{"c": "verify", "kind": "raw", "msg": op["name"], "tag": "after-prove"},
                {"c": "verify", "kind": "stateful", "msg": op["name"], "tag": "after-prove"}]
         k += 1
+    # satisfiable requests of a NON-member through the tree entry point (empty position, somebody else's position,
+    # registered with another limit, removed member): whatever the prover answers, success => raw verification accepts
+    other = {"k": "rnd", "s": 6100}
+    me = {"k": "rnd", "s": 6200}
+    sc += [{"c": "reg", "i": 40, "s": other, "lim": I(10)}, {"c": "reg", "i": 41, "s": me, "lim": I(20)},
+           {"c": "reg", "i": 42, "s": me, "lim": I(10)}, {"c": "del", "i": 42}]
+    for j, idx in enumerate([39, 40, 41, 42]):
+        op = prove_op(f"q{j}", "tree", me, idx, I(10), I(2), I(3), {"len": 5, "seed": j}, cls="non-member-tree")
+        sc += [op, {"c": "verify", "kind": "raw", "msg": op["name"], "tag": "non-member"}]
     # satisfiable but non-member requests through the caller-supplied-witness entry points: only "no crash and
     # raw verification accepts" is demanded
     for j in range(2 if quick else 8):
@@ -365,6 +386,15 @@ def scen_c04(rnd, n_values, n_proofs):
             pv["single"] = k % 20
         entry = "values" if k < n_values else rnd.choice(["witness", "raw", "vector"])
         sc.append(prove_op(f"v{k}", entry, s, 0, I(lim), I(mid), e, {"len": rnd.choice([0, 1, 136, 50]), "seed": k}, mut={"path": pv}, c04=True))
+    # chains of consecutive calls that differ in exactly ONE input (a value memoised under an incomplete key shows here)
+    base = dict(s=I(11), lim=100, mid=7, e=I(5), sig={"len": 3, "seed": 1}, path={"seed": 4242, "bits": "rnd"})
+    k0 = n_values + n_proofs
+    variants = [dict(), dict(lim=101), dict(), dict(mid=8), dict(), dict(e=I(6)), dict(), dict(sig={"len": 3, "seed": 2}), dict(),
+                dict(s=I(12)), dict(), dict(path={"seed": 4243, "bits": "rnd"}), dict(), dict(path={"seed": 4242, "bits": "alt"}), dict(),
+                dict(lim=65536), dict(mid=0), dict(mid=99, lim=100), dict(e={"k": "pm", "v": 1})]
+    for j, v in enumerate(variants):
+        c = dict(base, **v)
+        sc.append(prove_op(f"w{j}", "values", c["s"], 0, I(c["lim"]), I(c["mid"]), c["e"], c["sig"], mut={"path": c["path"]}, c04=True))
     # and through the tree entry point (path from the tree)
     for k, idx in enumerate([0, 1, (1 << 19) - 1, 1 << 19, BIG - 1][:max(2, n_proofs // 3)]):
         s = {"k": "rnd", "s": 900 + k}
@@ -386,7 +416,8 @@ def scen_c03(rnd, quick):
     for (sl, el, ml) in combos:
         s, e = fv_label(sl, rnd), fv_label(el, rnd)
         mid = {"0": I(0), "1": I(1), "rnd16": I(rnd.randrange(2, 65536))}[ml]
-        e2 = fv_label("rnd", rnd)
+        e2 = rnd.choice([fv_label("rnd", rnd), {"k": "add", "x": e, "y": {"k": "pow2", "e": 248, "d": 0}},
+                         {"k": "add", "x": e, "y": I(1)}, {"k": "add", "x": e, "y": {"k": "pow2", "e": 252, "d": 0}}])
         mid2 = I((mid["v"] + 1) % 65536)
         s2 = fv_label("rnd", rnd)
         a, b, c, d, f, g = (f"a{k}", f"b{k}", f"c{k}", f"d{k}", f"f{k}", f"g{k}")
